@@ -119,7 +119,7 @@ def check_property(pid, tier, seed, canary=True):
     solver_time = {}
     bounds = {}
     assumptions = list(cfg.get("assumptions", []))
-    covers_ok = 0
+    nontrivial = set()
     evaluations = 0
 
     # ------------------------------------------------------------------ Verus units
@@ -129,7 +129,6 @@ def check_property(pid, tier, seed, canary=True):
     verus_fail_units = {}
     for u in units:
         r = verus_run.run_unit(u)
-        evaluations += 1
         cmds.append(r["cmd"])
         solver_time["verus:" + u] = r.get("smt_s", 0)
         for d in r.get("diffs", []):
@@ -143,11 +142,16 @@ def check_property(pid, tier, seed, canary=True):
             undecided.append("verus:%s: %s" % (u, r["reason"]))
             all_P.append("verus:%s" % u)
             continue
+        contracted = set(x["name"].split("::")[-1] for x in r.get("unit_functions", []) if x["contract"] and not x["external_body"])
         for f in r["functions"]:
             name = "verus:%s::%s" % (u, f["function"])
             all_P.append(name)
+            evaluations += 1
             if f["success"]:
                 discharged_P.append(name)
+                # non-trivial: a real function under contract, or a lemma about the contract (not a derived clone/eq impl)
+                if f["function"].split("::")[-1] in contracted or f["mode"] == "proof":
+                    nontrivial.add(name)
         for f in r["failures"]:
             ob = verus_run.obligation_name(u, f)
             violations.append({"obligation": ob, "engine": "verus", "unit": u, "function": f["function"],
@@ -157,7 +161,6 @@ def check_property(pid, tier, seed, canary=True):
         for f in r.get("undecided", []):
             undecided.append("verus:%s::%s: %s" % (u, f["function"], f["message"]))
         if r["status"] == "ok":
-            covers_ok += 1
             samples.append({"engine": "verus", "unit": u, "verified": r.get("verified"), "functions": [f["function"] for f in r["functions"] if f["mode"] in ("exec", "proof")][:40]})
             if canary and not cfg.get("no_canary"):
                 c = verus_run.canary_check(u, r)
@@ -204,8 +207,7 @@ def check_property(pid, tier, seed, canary=True):
                 solver_time[name] = r["time_s"]
             if r["status"] == "ok":
                 (discharged_P if is_P else discharged_B).append(name)
-                if r.get("covers"):
-                    covers_ok += 1
+                nontrivial.add(name)
                 samples.append({"engine": "kani", "harness": h, "kind": meta.get("kind"), "checks": r.get("checks_total"),
                                 "covers": list(r["covers"]) if r.get("covers") else None, "time_s": r.get("time_s")})
             elif r["status"] == "failed":
@@ -253,6 +255,21 @@ def check_property(pid, tier, seed, canary=True):
             cmds.append(out["cmd"])
             for hh in need:
                 paired_failed[hh] = out["results"].get(hh, {}).get("status") == "failed"
+        # concrete playback of every failed Kani harness, in parallel (one cargo-kani process each)
+        pb_need = []
+        for v in new_viol:
+            hs = [v["harness"]] if v.get("harness") else [x for x in cfg.get("paired", {}).get(v.get("unit"), []) if paired_failed.get(x)]
+            for hh in hs:
+                if hh not in pb_need:
+                    pb_need.append(hh)
+        if pb_need:
+            from concurrent.futures import ThreadPoolExecutor
+            def _pb(hh):
+                g = _group_of(cfg, hh)
+                return hh, kani_run.playback(hh, g.get("features") if g else None, g.get("target", "kani") if g else "kani")
+            with ThreadPoolExecutor(max_workers=8) as ex:
+                for hh, res in ex.map(_pb, pb_need[:24]):
+                    playback_cache[hh] = res
         for v in new_viol:
             path = os.path.join(REPLAY_DIR, "%s-%s.json" % (pid, safe_name(v["obligation"])))
             rep = {"property": pid, "obligation": v["obligation"], "engine": v["engine"], "detail": v["detail"],
@@ -336,8 +353,8 @@ def check_property(pid, tier, seed, canary=True):
         "backends": {"verus": "Verus 0.2026.09.13 / Z3 4.12.5 (bundled)", "kani": "Kani 0.68.0 / CBMC 6.11.0 / CaDiCaL"},
         "solver_time_s": solver_time,
         "evaluations": evaluations,
-        "distinct_nontrivial": covers_ok,
-        "rule": "one evaluation = one Verus unit or one Kani harness (each a set of obligations over fully symbolic inputs); counted non-trivial when it was discharged AND its reachability guards held (Kani: every kani::cover point behind the contract's case split was satisfiable; Verus: the assert(false) canary was rejected)",
+        "distinct_nontrivial": len(nontrivial),
+        "rule": "one evaluation = one obligation set: a function verified by Verus, or one Kani harness (each over fully symbolic inputs). Counted distinct and non-trivial when it was DISCHARGED and is not boilerplate: Verus - a real function under a spliced contract or a lemma about the contracts (derived clone/eq impls are evaluated but not counted); Kani - a harness whose contract assertions all hold and whose kani::cover reachability points were all satisfiable (an unreachable cover makes the harness 'undecided', so it is never counted)",
         "samples": samples[:60],
         "extraction_diffs": diffs,
         "known_findings_reported": [k["obligation"] for k in known_hit],
